@@ -18,6 +18,8 @@
 //! RLIMIT_FSIZE is 0 and SIGXFSZ is ignored: File::create still works, every write to a regular file fails with
 //! EFBIG -- the path a full disk takes through json_write_to_file.  The limit is restored before the answer is
 //! written; only the event logger task runs in between (current-thread runtime).
+//! `log_write` with "noroom": true does the same around one RollingLogger write: "no room on the log file system"
+//! -- renaming, removing and creating (empty) files work, anything that has to put data into a file fails.
 use crate::key_keeper::key::AuthorizationItem;
 use crate::proxy::authorization_rules::{
     AuthorizationRulesForLogging, ComputedAuthorizationItem, ComputedAuthorizationRules,
@@ -189,6 +191,14 @@ async fn handle(st: &mut State, cmd: &Value) -> Value {
                 None => return json!({"error": "log_write before log_open"}),
             };
             let token = cmd["token"].as_str().unwrap_or("t");
+            let old = if cmd["noroom"].as_bool().unwrap_or(false) {
+                match fsize_zero(dir.parent().unwrap_or(Path::new("."))) {
+                    Ok(o) => Some(o),
+                    Err(e) => return json!({"error": e}),
+                }
+            } else {
+                None
+            };
             let r = catch_unwind(AssertUnwindSafe(|| {
                 if let Some(many) = cmd["many"].as_array() {
                     let mut lines = Vec::new();
@@ -203,6 +213,9 @@ async fn handle(st: &mut State, cmd: &Value) -> Value {
                     logger.write(LoggerLevel::Info, message(token, bytes.saturating_sub(35)))
                 }
             }));
+            if let Some(o) = &old {
+                fsize_restore(o);
+            }
             match r {
                 Ok(Ok(())) => json!({"ok": true, "files": listing(dir)}),
                 Ok(Err(e)) => json!({"ok": false, "err": e.to_string(), "files": listing(dir)}),
